@@ -184,9 +184,16 @@ class Ctx:
     known-findings predicates are matched against."""
     k = dict(key)
     k["clause"] = clause
-    if len(self.failures) < 200:
+    # at most 12 recorded failures per distinct key (a pinned known finding that fires hundreds of times in the
+    # thorough tier must not crowd OTHER violations out of the list), 2000 in total; the rest is only counted
+    sig = json.dumps(jsonable(k), sort_keys=True, default=str)
+    seen = self._fail_per_key = getattr(self, "_fail_per_key", {})
+    seen[sig] = seen.get(sig, 0) + 1
+    if seen[sig] <= 12 and len(self.failures) < 2000:
       self.failures.append(jsonable({"clause": clause, "key": k, "case": case,
                                      "observed": observed, "detail": detail}))
+    else:
+      self.count("failures_not_recorded")
 
   def compare(self, suite, case, real_vals, model_vals, scale, rtol=1e-9, atol=0.0):
     """Element-wise comparison of a real float vector with the model's rationals."""
